@@ -785,6 +785,7 @@ class Walker:
         self.b = body
         self.T = Termizer(F, body, inline=inline)
         self.on_node = on_node
+        self.on_if = None
         self.in_unsafe_fn = body.unsafe
         self.closure_depth = 0
         self.debug_depth = 0
@@ -1155,6 +1156,8 @@ class Walker:
         c = n["c"]
         if is_debug_only(F, n) or (c.get("k") == "Lit" and "cfg" in F.mac(c)):
             self.debug_depth += 1
+            if self.on_if is not None and c.get("k") not in ("Lit", "Let"):
+                self.on_if(self, n, K)
             self._branch(n["th"], K)
             self.debug_depth -= 1
             return False
@@ -1171,6 +1174,8 @@ class Walker:
         else:
             if self.walk(c, K):
                 return True
+            if self.on_if is not None:
+                self.on_if(self, n, K)
             rt = self._branch(n["th"], K, lambda Kb: Kb.add(cond_atoms(self.T, c, True)))
             re_ = self._branch(n.get("el"), K, lambda Kb: Kb.add(cond_atoms(self.T, c, False)))
         atoms = self._join_envs(None, [rt, re_])
@@ -1241,7 +1246,11 @@ class Walker:
         results = []
         for a in n["arms"]:
             def pre(Kb, a=a):
-                self.bind_pat_opaque(a["pat"])
+                if a["pat"].get("k") == "PTuple" and st[0] == "tup" and len(n["arms"]) == 1:
+                    # `match (&a, &b) { (l, r) => .. }` (assert_eq!/assert_ne!): the bindings alias the operands
+                    self.bind_pat(a["pat"], st, Kb)
+                else:
+                    self.bind_pat_opaque(a["pat"])
                 self.arm_facts(a["pat"], st, scrut, Kb)
                 if "guard" in a:
                     self.walk(a["guard"], Kb)
@@ -1416,3 +1425,39 @@ def _prefix(a, b):
             b = b[1]
         else:
             return False
+
+
+# ---- canonical form of low-bits masks --------------------------------------------------------------
+
+def _is_one(t):
+    return t == ("int", 1) or (t[0] == "def" and t[1].endswith("::ONE"))
+
+
+def _is_allones(t):
+    return (t[0] == "def" and t[1].endswith("MAX")) or t == ("un", "!", ("int", 0)) or t == ("un", "!", ZERO)
+
+
+def _is_wordbits(t):
+    return (t[0] == "def" and t[1].endswith("BITS")) or (t[0] == "int" and t[1] in (8, 16, 32, 64, 128))
+
+
+def canon_masks(t):
+    """Rewrites the equivalent constructions of the mask of the low r bits, `(1 << r) - 1` and
+    `MAX >> (BITS - r)`, to ("lowmask", r), and `MAX << r` to !lowmask(r) (bottom-up)."""
+    if not isinstance(t, tuple) or not t or not isinstance(t[0], str):
+        return t
+    t = tuple(canon_masks(x) if isinstance(x, tuple) else x for x in t)
+    if t[0] == "op" and len(t) == 4:
+        op, a, b = t[1], t[2], t[3]
+        if op == ">>" and _is_allones(a) and b[0] == "op" and b[1] == "-" and _is_wordbits(b[2]):
+            return ("lowmask", b[3])
+        if op == "<<" and _is_allones(a):
+            return ("un", "!", ("lowmask", b))
+        for s in (a, b):
+            if isinstance(s, tuple) and s and s[0] == "op" and s[1] == "<<" and _is_one(s[2]):
+                for one in (("int", 1), ("def", "common_traits::Number::ONE")):
+                    if t == mk_op("-", s, one):
+                        return ("lowmask", s[3])
+        if op == "-" and a[0] == "op" and a[1] == "<<" and _is_one(a[2]) and _is_one(b):
+            return ("lowmask", a[3])
+    return t
